@@ -221,5 +221,12 @@ def run(ctx):
     r18_2(ctx, fx)
     r18_3(ctx, fx)
     r18_4(ctx, fx)
+    if ctx.tier == "thorough":
+        import witness
+        res, tail = witness.run()
+        for w in ("PeerIdFieldIsPrivate", "PeerIdFieldNotAssignable"):
+            r = res.get(w, {})
+            ctx.ob("R18.1", "K8:%s" % w, r.get("compile_fail") is True and r.get("twin") is True, cfg=fx.cfg,
+                   detail="compile-fail witness rejected with the expected error code: %s; compiling twin builds: %s%s" % (r.get("compile_fail"), r.get("twin"), "" if r else " ; harness output: " + tail[-400:]))
     ctx.assume("multihash::Multihash::from_bytes/wrap, bs58::decode, multiaddr::PeerId::try_from are total (return Err instead of panicking)")
     ctx.assume("the registry source of the crate versions pinned in /repo/Cargo.lock is what the build uses")
